@@ -84,6 +84,7 @@ def row_stream(seed: int, n_ops: int, n_runs: int = 3, n_tasks: int = 4) -> dict
     ops: list[str] = []
     impl: list[str] = []
     dist: dict[str, int] = {}
+    records: list[dict] = []
 
     async def main(loop: VLoop) -> None:
         lock = LC.SqliteRunLifecycleLock(db)
@@ -99,6 +100,8 @@ def row_stream(seed: int, n_ops: int, n_runs: int = 3, n_tasks: int = 4) -> dict
                     await asyncio.sleep(arg / 1000.0)
                     continue
                 now = ms(loop.time())
+                before = read_row(db, rid)
+                ct = None
                 if kind == "create":
                     res = await lock.create(rid)
                     ops.append(f"db|{run}|create|{now}")
@@ -116,6 +119,8 @@ def row_stream(seed: int, n_ops: int, n_runs: int = 3, n_tasks: int = 4) -> dict
                     res = await lock.try_begin_resume(rid, crash_timeout_seconds=ct / 1000.0)
                     ops.append(f"db|{run}|resume|{now}|{ct}")
                 impl.append(f"{show_result(res)} {read_row(db, rid)}")
+                records.append({"op": kind, "run": run, "now": now, "ct": ct, "before": before, "result": show_result(res),
+                                "after": read_row(db, rid)})
                 key = f"{kind}->{show_result(res)}"
                 dist[key] = dist.get(key, 0) + 1
                 await asyncio.sleep(0)
@@ -132,7 +137,60 @@ def row_stream(seed: int, n_ops: int, n_runs: int = 3, n_tasks: int = 4) -> dict
                 pass
     # the two-statement form of the model must agree on the same stream
     ops2 = [o.replace("|resume|", "|resume2|") for o in ops]
-    return {"ops": ops, "impl": impl, "ops2": ops2, "dist": dist}
+    return {"ops": ops, "impl": impl, "ops2": ops2, "dist": dist, "records": records}
+
+
+def _parse_row(r: str) -> tuple[str | None, int]:
+    if r == "row=-":
+        return None, 0
+    st, _, t = r[len("row="):].partition("@")
+    return st, int(t)
+
+
+def row_monitors(records: list[dict], prop: str = "C26") -> list[tuple[str, str]]:
+    """the lifecycle state machine, checked on the real lock's answers (no model involved):
+    active -> releasing only by begin_release (True iff it was active); releasing -> released only by complete_release;
+    released -> active, or releasing -> active after the crash timeout, only by try_begin_resume answering `released`;
+    a call that does not win leaves the row alone"""
+    out: list[tuple[str, str]] = []
+    for r in records:
+        st0, u0 = _parse_row(r["before"])
+        st1, u1 = _parse_row(r["after"])
+        op, res = r["op"], r["result"]
+        bad = None
+        if op == "begin":
+            if (res == "True") != (st0 == "active"):
+                bad = f"begin_release answered {res} on a row in state {st0}"
+            elif res == "True" and st1 != "releasing":
+                bad = f"begin_release won but the row is {st1}"
+            elif res == "False" and (st1, u1) != (st0, u0):
+                bad = f"begin_release lost but changed the row {r['before']} -> {r['after']}"
+        elif op == "complete":
+            if st0 == "releasing" and st1 != "released":
+                bad = f"complete_release left a releasing row {r['after']}"
+            elif st0 != "releasing" and (st1, u1) != (st0, u0):
+                bad = f"complete_release changed a row that was not releasing: {r['before']} -> {r['after']}"
+        elif op in ("resume", "resume_ct"):
+            ct = r.get("ct")
+            expired = st0 == "releasing" and ct is not None and (r["now"] - u0) > ct
+            if st0 is None or st0 == "active":
+                want = "None"
+            elif st0 == "released" or expired:
+                want = "released"
+            else:
+                want = "releasing"
+            if res != want:
+                bad = f"try_begin_resume(crash_timeout={ct} ms) answered {res} on {r['before']} at t={r['now']} (expected {want})"
+            elif want == "released" and st1 != "active":
+                bad = f"try_begin_resume claimed the resume but the row is {r['after']}"
+            elif want != "released" and (st1, u1) != (st0, u0):
+                bad = f"try_begin_resume did not claim the resume but changed the row {r['before']} -> {r['after']}"
+        elif op == "create":
+            if st1 != "active":
+                bad = f"create left the row {r['after']}"
+        if bad:
+            out.append((prop + "/lifecycle_cas:" + op, bad))
+    return out
 
 
 def create_call_sites() -> list[str]:
